@@ -37,6 +37,21 @@ CLAIMS = {
              "CPython), z3. Unverified: str/bytes/bytearray/unicode indexing helpers, SetItemInt/DelItemInt, slicing (SliceObject), "
              "helper selection in IndexNode.",
         ref="4 C15"),
+    "C09": dict(
+        text="Proof of the data-structure contract of the numeric constant pool in Code.py (GlobalState.num_const_index as an abstract map "
+             "from (literal text, type tag) to NumConst objects): INV - every pooled constant is filed under its own value text and tag - "
+             "is preserved by new_num_const, get_float_const and get_int_const (new_num_const inlined = real code; try/except KeyError "
+             "as two paths), the constant returned for a literal was created from exactly that text and tag, an existing entry is reused "
+             "and never replaced, entries under other keys are unchanged. Hence literals with different texts or tags ('0.0' / '-0.0', "
+             "'1' / '1L', int / float) never share a pooled object. Kernel: the pool of int and float literals. BOUNDED (labelled, not "
+             "counted): ExprNodes.make_dedup_key, the pooling key of tuple / frozenset / slice constants, by enumeration of all pairs of "
+             "short item sequences over a fixed atom set on the real function.",
+        note="Trusted: dv Python front end (literal texts and tags as abstract identities, tuple keys through an injective pairing with "
+             "projections, any non-identity key such as float(text) an uninterpreted function), z3; NumConst.__init__ and "
+             "new_num_const_cname are contract stubs (the chosen C names are NOT part of the contract: seed C09-a, colliding cnames of "
+             "huge ints, is outside). Unverified: constant folding (Optimize.ConstantFolding), Utils.str_to_number and the text "
+             "normalisation done by IntNode/FloatNode before the pool is asked, literal emission, get_py_const / string constants.",
+        ref="4 C09"),
     "C40": dict(
         text="Proof of the two decision points of safe type inference in TypeInference.py (real functions, sidecar contracts): "
              "MarkOverflowingArithmetic.visit_BinopNode visits the operand names of EVERY binary operator whose C result can leave the "
